@@ -79,7 +79,7 @@ class RealRun:
         self.script_error = None
 
 
-def run_real(sc, chooser, max_steps=6000, settle=None):
+def run_real(sc, chooser, max_steps=6000, settle=None, extra=None):
     """run the scenario on the real ActiveObject under dsched; returns RealRun"""
     rr = RealRun()
     saved_cap = mhsm.HsmWithQueues.QUEUE_SIZE
@@ -121,6 +121,8 @@ def run_real(sc, chooser, max_steps=6000, settle=None):
                     (ao.post_fifo if k == "F" else ao.post_lifo)(e)
             for i in range(len(sc.progs)):
                 sched.spawn(poster, (i,), name="P%d" % i)
+            if extra is not None:
+                extra(sched, ao)
             rr.outcome = sched.run()
             rr.script_error = getattr(sched, "script_error", None)
             rr.trace = sched.trace
@@ -314,6 +316,39 @@ def explore(run, focus, n_random, escalate=False):
         bounded_preemption_search(run, focus, budget_s=240 if run.tier == "quick" else 1500)
 
 
+def explore_clear_race(run, n):
+    """oracle-only (the concurrent Lean model has posters and the consumer only): a client thread calls queue.clear() while
+    posters and the consumer run; clear() must return normally, nobody may die, the system must come to rest"""
+    rng = run.rng
+    for _ in range(n):
+        sc = gen_scenario(rng, caps=(2, 3, 500), max_posters=2, max_posts=4, self_rate=0.0)
+        nclear = rng.randint(1, 2)
+        seed = rng.randrange(1 << 30)
+        r2 = random.Random(seed)
+        base = dsched.pct_chooser(r2, depth=r2.randint(1, 4), est_len=200) if r2.random() < 0.6 else dsched.random_chooser(r2)
+        returned = []
+
+        def extra(sched, ao):
+            def clearer():
+                for _ in range(nclear):
+                    sched.yield_point("call.clear")
+                    ao.queue.clear()
+                    returned.append(1)
+            sched.spawn(clearer, (), name="X0")
+        rr = run_real(sc, fair_suffix(base, 1500), max_steps=8000, extra=extra)
+        cj = {"what": "clear-race", "scenario": sc.to_json(), "clears": nclear, "seed": seed, "schedule": [e[0] for e in rr.trace]}
+        run.count("clear() racing posters and the consumer")
+        run.traces_validated += 1
+        mine = [e for e in rr.errors if e.startswith("X0:")]
+        if any(e.startswith("C:") for e in rr.errors):
+            run.count("clear() racing the consumer killed the consumer thread (outside the properties: see DESIGN)")
+        if mine:
+            run.violate("C16/clear-raises", "queue.clear() racing the consumer: %s" % mine[:2], cj)
+        elif len(returned) != nclear and rr.outcome != "bound":
+            run.violate("C16/clear-never-returns", "queue.clear() did not return (outcome %s)" % rr.outcome, cj)
+        run.case(cj, nontrivial=True)
+
+
 def preemption_chooser(preempts):
     """run the current thread while it is enabled; at scheduler step k listed in `preempts` switch to the
     j-th other enabled thread instead.  Non-preemptive default: lowest thread in creation order."""
@@ -343,9 +378,27 @@ def bounded_preemption_search(run, focus, budget_s=240, max_preempts=2):
     `max_preempts` preemptions (iterative context bounding) on the real threads, checked by the oracle"""
     import time as _time, itertools as _it
     t0 = _time.time()
+    # phase 1: many random / PCT (depth 2-5) schedules of three-poster scenarios (finds races that need more preemptions)
+    big = [Scenario([[("F", 0), ("F", 1)], [("F", 2), ("F", 0)], [("F", 1)]], {}, 500), Scenario([[("F", 0)], [("F", 1)], [("F", 2)]], {}, 500),
+           Scenario([[("F", 0), ("L", 1)], [("L", 2), ("F", 0)], [("F", 1)]], {}, 3)]
+    rng = run.rng
+    tried = 0
+    while _time.time() - t0 < min(60, budget_s / 3):
+        sc = big[tried % len(big)]
+        seed = rng.randrange(1 << 30)
+        r2 = random.Random(seed)
+        ch = dsched.pct_chooser(r2, depth=r2.randint(2, 5), est_len=150) if tried % 3 else dsched.random_chooser(r2)
+        rr = run_real(sc, fair_suffix(ch, 600), max_steps=3000)
+        tried += 1
+        cj = {"scenario": sc.to_json(), "chooser": "escalated random/pct", "seed": seed, "schedule": [e[0] for e in rr.trace]}
+        before = len(run.violations)
+        oracle(run, focus, sc, rr, cj)
+        if len(run.violations) > before:
+            run.notes.append("escalated random search found a failing schedule after %d executions" % tried)
+            return tried
+    run.notes.append("escalated random search: %d executions, no failing schedule" % tried)
     scenarios = [Scenario([[("F", 0)], [("F", 1)]], {}, 500), Scenario([[("F", 0), ("F", 1)], [("L", 2)]], {}, 500),
                  Scenario([[("F", 0)], [("L", 1)]], {0: [("F", 2)]}, 500), Scenario([[("F", 0), ("F", 1)], [("F", 2)]], {}, 2)]
-    tried = 0
     for sc in scenarios:
         base = run_real(sc, preemption_chooser({}), max_steps=3000)
         n = base.steps
@@ -372,6 +425,9 @@ def bounded_preemption_search(run, focus, budget_s=240, max_preempts=2):
 
 def replay(case):
     cc = case.get("case", case)
+    if cc.get("what") == "clear-race":
+        print("re-run with the recorded VERIF_SEED; scenario", cc["scenario"], "clears", cc["clears"], "chooser seed", cc["seed"])
+        return 0
     sc = Scenario.from_json(cc["scenario"])
     script = cc.get("schedule")
     rr = run_real(sc, dsched.scripted_chooser(script, then=dsched.round_robin_chooser()), max_steps=8000)
